@@ -61,13 +61,23 @@ def write_docs(docs, path):
             f.write(struct.pack('<I', len(d)) + d)
 
 
+class CalibrationDied(Exception):
+    def __init__(self, rc, report, done):
+        Exception.__init__(self, 'calibration died')
+        self.rc, self.report, self.done = rc, report, done
+
+
 def measure(docs):
     exe = build.build('asan', ('pool_hist',))['pool_hist']
     t = tempfile.mkdtemp(prefix='mmdv-c18m-', dir=D.SCRATCH_ROOT)
     try:
         write_docs(docs, os.path.join(t, 'd.bin'))
         p = subprocess.run([exe, os.path.join(t, 'd.bin'), 'measure'], stdout=subprocess.PIPE, stderr=subprocess.PIPE, env=ENV)
-        return [int(x) for x in re.findall(r'TOKENS \d+ (\d+)', p.stdout.decode())]
+        counts = [int(x) for x in re.findall(r'TOKENS \d+ (\d+)', p.stdout.decode())]
+        if p.returncode != 0 or len(counts) != len(docs):
+            # the measuring pass is itself a history (init, parse, count, drain, free, once per document): dying in it is a finding, not a harness problem
+            raise CalibrationDied(p.returncode, (p.stdout + p.stderr).decode('utf-8', 'replace'), len(counts))
+        return counts
     finally:
         shutil.rmtree(t, ignore_errors=True)
 
@@ -137,7 +147,16 @@ def work(job):
     exe = build.build('asan', ('pool_hist',))['pool_hist']
     tdir = tempfile.mkdtemp(prefix='mmdv-c18-', dir=D.SCRATCH_ROOT)
     try:
-        docs = make_docs()
+        try:
+            docs = make_docs()
+        except CalibrationDied as e:
+            if lo == 0:
+                r.evaluations += 1
+                r.distinct.add('calibration')
+                r.distinct.add('calibration-died')
+                r.violate('pool:calibration:' + D.sanitizer_key(e.report, e.rc), 'the history "init, parse, count tokens, drain, free" repeated per document died after %d documents (rc %s)' % (e.done, e.rc),
+                          dict(history='measure'), e.report[-3000:])
+            return r
         df = os.path.join(tdir, 'docs.bin')
         with open(df, 'wb') as f:
             f.write(struct.pack('<I', len(docs)))
